@@ -568,3 +568,35 @@ func init() {
 		return strings.Join(out, ";")
 	})
 }
+
+func init() {
+	// C01
+	// identical <A|B> <alphabet> <rows of x> <rows of y> <rename map of x|_> <rename map of y|_>:
+	// two containers built row by row (a refused row is skipped), optionally renamed by the caller (which may make
+	// names collide), then x.Identical(y) and y.Identical(x), and the rows as each container holds them
+	register("identical", func(a []string) string {
+		alpha := atoi(a[1])
+		mk := func(rows []Row, ren string) align.SeqBag {
+			var sb align.SeqBag
+			if a[0] == "A" {
+				sb = align.NewAlign(alpha)
+			} else {
+				sb = align.NewSeqBag(alpha)
+			}
+			for _, r := range rows {
+				sb.AddSequence(r.Name, r.Seq, "")
+			}
+			if rn := decPRows(ren); len(rn) > 0 {
+				m := map[string]string{}
+				for _, r := range rn {
+					m[r.Name] = pctDec(r.Seq)
+				}
+				sb.Rename(m)
+			}
+			return sb
+		}
+		x := mk(decPRows(a[2]), a[4])
+		y := mk(decPRows(a[3]), a[5])
+		return fmt.Sprintf("%s %s %s %s", btoa(x.Identical(y)), btoa(y.Identical(x)), encPRows(rowsOf(x)), encPRows(rowsOf(y)))
+	})
+}
